@@ -65,6 +65,32 @@ def segmentAuxOk (X : Obj ℚ) : Bool :=
       mnorm row == 0
   | _, _ => true
 
+/-- a one-element history is one step -/
+theorem run_single {K : Type} [Field K] [Inhabited K] (r : K → K) (X : Obj K) (op : ObjOp K) :
+    X.run r [op] = X.step r op := by
+  unfold Obj.run
+  cases X.step r op <;> simp [Obj.run]
+
+/-- a history is run step by step: the driver loop below, which reports the object after every step, threads
+exactly this recursion -/
+theorem run_cons {K : Type} [Field K] [Inhabited K] (r : K → K) (X : Obj K) (op : ObjOp K) (ops : List (ObjOp K)) :
+    X.run r (op :: ops) = (X.step r op).bind fun Y => Y.run r ops := by
+  conv_lhs => unfold Obj.run
+  cases X.step r op <;> rfl
+
+/-- the unit-level edges of a polygon (`polygonEdges`, the statement vocabulary of `polygonEdges_equivariant` /
+`polygonEdges_chain`) are the polygon case of the executed `auxEntry` (through `computeAux`): entry `(e, a, c)` is
+entry `((e + a) mod t, c)` of the vertex array -/
+theorem polygonEdges_eq_auxEntry {K : Type} [Field K] [Inhabited K] {k n : ℕ} (r : K → K)
+    (X : Matrix (Fin (k + 1)) (Fin n) K) (acc : List ℕ → K)
+    (hacc : ∀ (v : Fin (k + 1)) (c : Fin n), acc [v.1, c.1] = X v c) (e : Fin (k + 1)) (a : Fin 2) (c : Fin n) :
+    polygonEdges X e a c = auxEntry r .polygon [k + 1, n] acc [e.1, a.1, c.1] := by
+  have h0 : e.1 % (k + 1) = e.1 := Nat.mod_eq_of_lt e.2
+  have h1 : (e.1 + 1) % (k + 1) = (e + 1).1 := by simp [Fin.val_add]
+  fin_cases a
+  · simp [polygonEdges, auxEntry, ← hacc, h0]
+  · simp [polygonEdges, auxEntry, ← hacc, h1]
+
 /-- run a history (operations and queries interleaved) and report the object after every step -/
 def opRun (j : Json) : R Json := do
   let kind ← kindOf (← strf j "kind")
@@ -94,6 +120,7 @@ def opRun (j : Json) : R Json := do
       out := out.push (ofObj X)
     | _ =>
       let op ← opOf kind s
+      -- one operation of the history (`run_single` / `run_cons`: `Obj.run` threads exactly these steps)
       match X.step rq op with
       | .error e => throw e
       | .ok Y =>
